@@ -155,7 +155,7 @@ CHECKS = {
               "permuted (except the constraints object, whose order is the constraint order — the unrestricted claim is refuted) "
               "do not change what is read. PARTIAL for AFM and Glencoe beyond that: that the reference-emitter documents denote "
               "their reference models is decided by the oracle on suites R-afm-3p / R-glencoe-3p, not by a theorem. The shipped corpus is read by model and implementation and compared "
-              "with Betty's own statistics."),
+              "with Betty's own statistics. One open finding (AFM grammar rejects harmless blanks, afmparser) is reproduced by suite R-afm-known."),
         note=("Coq kernel; extraction/driver; harness reference emitters (the reading of the four formats); external XML / JSON / "
               "ANTLR parsers; no axioms"),
         technique="Coq proof over hand-written Gallina reader models and a Gallina reference emitter + differential correspondence",
@@ -169,7 +169,7 @@ CHECKS = {
               "the whole tree unchanged and maps each constraint to a logically equivalent one, stays in the fragment, is idempotent, "
               "and is written as the byte-identical text (so any number of cycles changes nothing). End to end for ANY parser "
               "function that returns the writer's syntax tree on the writer's text (explicit premise, validated on every case by "
-              "suite P-uvl against the real ANTLR parser). Bytes tied to the code by suite W-uvl, reader by suite R-uvl."),
+              "suite P-uvl against the real ANTLR parser). Bytes tied to the code by suite W-uvl, reader by suite R-uvl. Open findings (names starting with an apostrophe; string values with a full stop or line break, uvlparser) are reproduced by fixed models (suite R-uvl-known-models) and printed as KNOWN-FINDING."),
         note=("Coq kernel; extraction/driver; harness incl. conversion of the ANTLR parse tree; the external uvlparser/antlr4 runtime "
               "enters only through the stated premise; float tokens carry Python's repr; no axioms"),
         technique="Coq proof (writer/reader models over a concrete-syntax-tree type, parser as premise) + differential correspondence",
@@ -181,7 +181,7 @@ CHECKS = {
               "its operator needs (UVL under the grammar-guaranteed hypothesis that no binary node carries NOT; the statement without "
               "it is refuted in the development); FeatureIDE relations are never empty. The back pointers of the implementation's "
               "result are dumped and compared with the reader models on every document of the reader suites; the oracle walks the "
-              "live object graph."),
+              "live object graph. Open findings (flamapy.core pretty_str on one-argument aggregates; names starting with an apostrophe) are reproduced by suite R-known-consumers and printed as KNOWN-FINDING."),
         note=("Coq kernel; extraction/driver; harness dumper of back pointers (public attributes only); external parsers as in "
               "C01/C05-C09; only the reader suites and the graph clauses count for this check; no axioms"),
         technique="Coq proof over pointer-annotated reader models + differential correspondence on the reader suites",
@@ -209,7 +209,7 @@ CHECKS = {
               "statement is refuted by a witness — open finding in the flamapy.core dependency), no feature is missing; pl — the "
               "exported lines hold exactly for the valid configurations of the model (cardinality groups as the disjunction over "
               "subsets; all constraints), every feature is mentioned. Bytes tied to the code by suites W-splot / W-pl; independent "
-              "interpreters of the two formats enumerate the configurations of the written files (suites S-*)."),
+              "interpreters of the two formats enumerate the configurations of the written files (suites S-*). A second open finding (names not made safe for SXFM / .exp) is reproduced by suite W-export-known."),
         note=("Coq kernel; extraction/driver; harness interpreters of SXFM and pl (the check's reading of the formats); the Gallina "
               "semantics of the two formats; no axioms"),
         technique="Coq proof (semantic preservation of the export over format semantics) + differential correspondence",
@@ -219,7 +219,7 @@ CHECKS = {
               "exported hierarchy and constraints are exactly the valid configurations of the model (unique names; every relation "
               "kind the writer maps to xor/or/mux/[a..b]/?), every logical operator is translated and means the same, safe "
               "identifiers are injective, every attribute is declared. Bytes tied to the code by suite W-clafer; an independent "
-              "interpreter of the Clafer subset enumerates instances of the written file (suite S-clafer)."),
+              "interpreter of the Clafer subset enumerates instances of the written file (suite S-clafer). One open finding (quotes / line breaks / digit-only names / the writer's own clafer names) is reproduced by suite W-clafer-known."),
         note=("Coq kernel; extraction/driver; harness interpreter of the Clafer subset (no Clafer tool is installed); the Gallina "
               "semantics of the subset; no axioms"),
         technique="Coq proof (semantic preservation of the export over a Clafer-subset semantics) + differential correspondence",
